@@ -254,12 +254,12 @@ static Table& tab_fp() { static Table t; return t; }
 static void prop_common_fp(pbt::Ctx& c) { Table& t = tab_fp(); const Inst& in = t[c.draw(t.size())]; in.run(c, in); }
 static int reg_all() {
 	C01_REG(tab_fp(), run_common_fp, float) C01_REG(tab_fp(), run_common_fp, double)
-	add_target("common/float-double", prop_common_fp, tab_fp().size(), 30000, 1500000,
+	add_target("common/float-double", prop_common_fp, tab_fp().size(), 30000, 800000,
 	           "instance = vec<L,float|double,Q>; every case runs abs sign floor ceil trunc round roundEven fract isnan isinf min max clamp step mix(float) mix(bool) smoothstep mod fma modf frexp ldexp and the four bit casts "
 	           "in every documented overload shape; operands: special lattice + random bit patterns per documented domain (NaN only for abs sign isnan isinf bit casts mix(bool); lo <= hi; edge0 < edge1; y != 0; "
 	           "|x| < 2^31 for roundEven; finite x for frexp/ldexp), x == edge / equal operands planted; non-trivial = L >= 2, pairwise distinct components with pairwise distinct scalar results (per-function class counters)");
-	add_sweep("common/float-unary-sweep", prop_sweep, 1ULL << 32, 256, 8,
-	          "every float bit pattern u (quick: one per block of 256, thorough: one per block of 8) as lane 0 of a vec4 (other lanes -x, bits^0x00400001, next pattern) through abs sign floor ceil trunc round roundEven(|x|<2^31) fract isnan isinf "
+	add_sweep("common/float-unary-sweep", prop_sweep, 1ULL << 32, 256, 16,
+	          "every float bit pattern u (quick: one per block of 256, thorough: one per block of 16) as lane 0 of a vec4 (other lanes -x, bits^0x00400001, next pattern) through abs sign floor ceil trunc round roundEven(|x|<2^31) fract isnan isinf "
 	          "floatBitsToInt floatBitsToUint radians degrees sqrt inversesqrt; non-trivial = lane 0 is not a NaN");
 	return 0;
 }
@@ -272,7 +272,7 @@ static int reg_all() {
 #if C01_TIER
 	C01_REG(tab_int(), run_common_int, glm::uint8) C01_REG(tab_int(), run_common_int, glm::int16) C01_REG(tab_int(), run_common_int, glm::uint16) C01_REG(tab_int(), run_common_int, glm::int64)
 #endif
-	add_target("common/integers", prop_common_int, tab_int().size(), 30000, 1500000,
+	add_target("common/integers", prop_common_int, tab_int().size(), 30000, 800000,
 	           "instance = vec<L,integer type,Q>; abs sign (signed, x != MIN) min max clamp mix(bool) in every overload shape on structured + random full-range integers; non-trivial as for common/float-double");
 	return 0;
 }
